@@ -813,10 +813,18 @@ class HistoryRun:
         if w <= 0:
             self.notes.append(f"overlap_exec: no write in phase {step['phase']}; the two runs happen one after the other")
             self._prim(dict(base, op="exec", label="A-unparked"))
-            self._prim(dict(step["peer"], op="exec", label="B-after"))
+            if step.get("peer_edit"):
+                self._prim({"op": "edit", "proj": base.get("proj", "p0"), "edit": step["peer_edit"]})
+            else:
+                self._prim(dict(step["peer"], op="exec", label="B-after"))
             return
         k = 1 + step["k_draw"] % w
-        return self.overlap_at({"op": "overlap_at", "phase": step["phase"], "k": k, "w": w, "exec": base, "peer": dict(step["peer"])})
+        at = {"op": "overlap_at", "phase": step["phase"], "k": k, "w": w, "exec": base}
+        if step.get("peer_edit"):
+            at["peer_edit"] = step["peer_edit"]
+        else:
+            at["peer"] = dict(step["peer"])
+        return self.overlap_at(at)
 
     def overlap_at(self, step):
         """primitive form (explicit k): what replay files contain"""
@@ -837,6 +845,14 @@ class HistoryRun:
             while time.time() < t_end and not os.path.exists(reached) and not ended(proc.pid):
                 time.sleep(0.01)
             parked = os.path.exists(reached)
+            if step.get("peer_edit"):
+                # "the editor saves a file while the compiler runs": the sources of the project change while
+                # A sits between two of its cache writes (when A never reached its k-th write the edit comes
+                # right after it: an ordinary edit between two runs)
+                self.notes.append(f"edit {step['peer_edit']} applied while pavexc was parked at cache write {k}/{w}" if parked else f"edit {step['peer_edit']} applied after the run (it never reached write {k})")
+                self.edit({"op": "edit", "proj": step["exec"].get("proj", "p0"), "edit": step["peer_edit"]})
+                self.saved_mid_run = getattr(self, "saved_mid_run", 0) + (1 if parked else 0)
+                return
             b = dict(step["peer"], op="exec", label="B-while-A-parked" if parked else "B-after-A", peer_parked=parked,
                      peer_same_project=step["peer"].get("proj", "p0") == step["exec"].get("proj", "p0"))
             if parked and "timeout" not in b:
